@@ -1,8 +1,360 @@
-//! Family "sigstore" (stub: not implemented yet).
-use crate::Ctx;
-use serde_json::Value;
+//! Family "sigstore": sux::utils::sig_store (property C18, C12 for this family).
+//!
+//! Episode fields: `kind` "online" | "offline", `st` "s1" ([u64; 1]) | "s2"
+//! ([u64; 2]), `vt` "u8" | "u64" | "empty" (EmptyVal), `bb` bucket bits, `mb`
+//! max shard bits, optional `exp` (expected number of keys).
+//!
+//! A signature is logged as the list of its 64-bit words (most significant
+//! first), each word as base-2^15 little-endian limbs (`util::limbs`); values
+//! are plain integers below 2^31. Scripts use the same representation, so the
+//! arguments are copied verbatim into the trace.
+//!
+//! Every shard returned by an iterator is logged as a list of
+//! `[sig, val, id]`, where `id` (1-based, 0 = none) is a *witness* for the
+//! specification: the index, in push order, of a pushed pair with exactly that
+//! signature and value that this pass has not been given yet. The
+//! specification checks the witness (pushed[id] = <<sig, val>>, ids pairwise
+//! distinct, shard computed from the signature bits); nothing is judged here.
 
-pub fn run(_ep: &Value, _ctx: &mut Ctx) {
-    eprintln!("family sigstore not implemented");
+use crate::util::*;
+use crate::{guard, Ctx};
+use epserde::prelude::*;
+use serde_json::{json, Value};
+use std::collections::HashMap;
+use std::ops::{BitXor, BitXorAssign};
+use std::sync::Arc;
+use sux::utils::sig_store::{
+    new_offline, new_online, EmptyVal, ShardStore, Sig, SigStore, SigVal,
+};
+
+trait HVal: ZeroCopy + Send + Sync + Copy + BitXor<Output = Self> + BitXorAssign + 'static {
+    fn from_u64(x: u64) -> Self;
+    fn to_u64(self) -> u64;
+}
+impl HVal for u8 {
+    fn from_u64(x: u64) -> Self {
+        x as u8
+    }
+    fn to_u64(self) -> u64 {
+        self as u64
+    }
+}
+impl HVal for u64 {
+    fn from_u64(x: u64) -> Self {
+        x
+    }
+    fn to_u64(self) -> u64 {
+        self
+    }
+}
+impl HVal for EmptyVal {
+    fn from_u64(_: u64) -> Self {
+        EmptyVal::default()
+    }
+    fn to_u64(self) -> u64 {
+        0
+    }
+}
+
+trait HSig: Sig + ZeroCopy + Send + Sync + Copy + 'static {
+    fn from_words(w: &[u64]) -> Self;
+    fn words(&self) -> Vec<u64>;
+    fn xor<V: HVal>(a: SigVal<Self, V>, b: SigVal<Self, V>) -> SigVal<Self, V>;
+    fn xor_assign<V: HVal>(a: &mut SigVal<Self, V>, b: SigVal<Self, V>);
+}
+impl HSig for [u64; 1] {
+    fn from_words(w: &[u64]) -> Self {
+        [w[0]]
+    }
+    fn words(&self) -> Vec<u64> {
+        self.to_vec()
+    }
+    fn xor<V: HVal>(a: SigVal<Self, V>, b: SigVal<Self, V>) -> SigVal<Self, V> {
+        a ^ b
+    }
+    fn xor_assign<V: HVal>(a: &mut SigVal<Self, V>, b: SigVal<Self, V>) {
+        *a ^= b;
+    }
+}
+impl HSig for [u64; 2] {
+    fn from_words(w: &[u64]) -> Self {
+        [w[0], w[1]]
+    }
+    fn words(&self) -> Vec<u64> {
+        self.to_vec()
+    }
+    fn xor<V: HVal>(a: SigVal<Self, V>, b: SigVal<Self, V>) -> SigVal<Self, V> {
+        a ^ b
+    }
+    fn xor_assign<V: HVal>(a: &mut SigVal<Self, V>, b: SigVal<Self, V>) {
+        *a ^= b;
+    }
+}
+
+fn words_of(v: &Value) -> Vec<u64> {
+    v.as_array()
+        .unwrap_or_else(|| panic!("signature must be a list of words: {v}"))
+        .iter()
+        .map(|w| of_limbs(w) as u64)
+        .collect()
+}
+
+fn sig_json(words: &[u64]) -> Value {
+    Value::Array(words.iter().map(|&w| json!(limbs(w as u128))).collect())
+}
+
+fn pair_of<S: HSig, V: HVal>(sig: &Value, val: &Value) -> SigVal<S, V> {
+    SigVal {
+        sig: S::from_words(&words_of(sig)),
+        val: V::from_u64(val.as_u64().unwrap_or(0)),
+    }
+}
+
+type Key = (Vec<u64>, u64);
+
+/// Push-order registry used only to attach witnesses to returned pairs.
+#[derive(Default)]
+struct Registry {
+    n: usize,
+    index: HashMap<Key, Vec<usize>>,
+}
+
+impl Registry {
+    fn add<S: HSig, V: HVal>(&mut self, sv: &SigVal<S, V>) {
+        self.n += 1;
+        self.index
+            .entry((sv.sig.words(), sv.val.to_u64()))
+            .or_default()
+            .push(self.n);
+    }
+}
+
+/// Drives one iterator: at most `take` calls of next() (stopping at the first
+/// None), then, if None was seen, `extra` further calls.
+fn pass<S: HSig, V: HVal, I: Iterator<Item = Arc<Vec<SigVal<S, V>>>>>(
+    mut it: I,
+    take: usize,
+    extra: usize,
+    reg: &Registry,
+) -> Value {
+    let hint = |it: &I| {
+        let (lo, hi) = it.size_hint();
+        json!([lo, opt(hi)])
+    };
+    let mut cursor: HashMap<Key, usize> = HashMap::new();
+    let mut shards = Vec::new();
+    let mut hints = vec![hint(&it)];
+    let mut ended = false;
+    let mut calls = 0;
+    while calls < take {
+        calls += 1;
+        match it.next() {
+            None => {
+                ended = true;
+                break;
+            }
+            Some(shard) => {
+                let mut out = Vec::with_capacity(shard.len());
+                for sv in shard.iter() {
+                    let key = (sv.sig.words(), sv.val.to_u64());
+                    let c = cursor.entry(key.clone()).or_insert(0);
+                    let id = reg
+                        .index
+                        .get(&key)
+                        .and_then(|ids| ids.get(*c))
+                        .copied()
+                        .unwrap_or(0);
+                    *c += 1;
+                    out.push(json!([sig_json(&key.0), key.1, id]));
+                }
+                shards.push(Value::Array(out));
+                hints.push(hint(&it));
+            }
+        }
+    }
+    let mut extra_some = 0;
+    if ended {
+        for _ in 0..extra {
+            if it.next().is_some() {
+                extra_some += 1;
+            }
+        }
+    }
+    json!({"shards": shards, "hints": hints, "ended": ended, "extra_some": extra_some})
+}
+
+enum St<SS, SH> {
+    Sig(SS),
+    Shard(SH),
+    Gone,
+}
+
+fn tool_error(msg: String) -> ! {
+    eprintln!("sigstore executor: environment failure: {msg}");
     std::process::exit(2);
+}
+
+fn run_typed<S: HSig, V: HVal, SS: SigStore<S, V>>(
+    make: impl FnOnce() -> anyhow::Result<SS>,
+    hdr: &Value,
+    ep: &Value,
+    ctx: &mut Ctx,
+) {
+    ctx.begin(hdr);
+    let mut st: St<SS, SS::ShardStore> = match guard(make) {
+        Ok(Ok(s)) => {
+            ctx.emit(hdr, "ret", json!({}));
+            St::Sig(s)
+        }
+        Ok(Err(e)) => tool_error(format!("{e:?}")),
+        Err(msg) => {
+            ctx.emit(hdr, "panic", json!({"msg": msg}));
+            St::Gone
+        }
+    };
+    let mut reg = Registry::default();
+    for op in ep["ops"].as_array().unwrap() {
+        ctx.begin(op);
+        let name = op["op"].as_str().unwrap();
+        // Err("na"): the operation does not exist in the current phase
+        let r: Result<Value, String> = match (name, &mut st) {
+            ("push", St::Sig(s)) => {
+                let sv: SigVal<S, V> = pair_of(&op["sig"], &op["val"]);
+                guard(|| s.try_push(sv)).map(|r| {
+                    if let Err(e) = r {
+                        tool_error(format!("{e:?}"));
+                    }
+                    reg.add(&sv);
+                    json!({"res": s.len()})
+                })
+            }
+            ("push_many", St::Sig(s)) => {
+                let items: Vec<SigVal<S, V>> = op["items"]
+                    .as_array()
+                    .unwrap()
+                    .iter()
+                    .map(|p| pair_of(&p[0], &p[1]))
+                    .collect();
+                guard(|| {
+                    for sv in &items {
+                        if let Err(e) = s.try_push(*sv) {
+                            tool_error(format!("{e:?}"));
+                        }
+                    }
+                })
+                .map(|_| {
+                    for sv in &items {
+                        reg.add(sv);
+                    }
+                    json!({"res": s.len()})
+                })
+            }
+            ("len", St::Sig(s)) => guard(|| s.len()).map(|n| json!({"res": n})),
+            ("is_empty", St::Sig(s)) => guard(|| s.is_empty()).map(|b| json!({"res": b})),
+            ("max_shard_high_bits", St::Sig(s)) => {
+                guard(|| s.max_shard_high_bits()).map(|b| json!({"res": b}))
+            }
+            ("temp_dir", St::Sig(s)) => guard(|| s.temp_dir().is_some()).map(|b| json!({"res": b})),
+            ("into_shard_store", St::Sig(_)) => {
+                let s = match std::mem::replace(&mut st, St::Gone) {
+                    St::Sig(s) => s,
+                    _ => unreachable!(),
+                };
+                let bits = op["s"].as_u64().unwrap() as u32;
+                guard(move || s.into_shard_store(bits)).map(|r| match r {
+                    Ok(sh) => {
+                        let v = json!({"sizes": sh.shard_sizes().to_vec(), "slen": sh.len()});
+                        st = St::Shard(sh);
+                        v
+                    }
+                    Err(e) => tool_error(format!("{e:?}")),
+                })
+            }
+            ("shard_sizes", St::Shard(sh)) => {
+                guard(|| sh.shard_sizes().to_vec()).map(|v| json!({"res": v}))
+            }
+            ("store_len", St::Shard(sh)) => guard(|| sh.len()).map(|n| json!({"res": n})),
+            ("iter", St::Shard(sh)) => {
+                let (take, extra) = (get_usize(op, "take"), get_usize(op, "extra"));
+                guard(|| pass(sh.iter(), take, extra, &reg))
+            }
+            ("into_iter", St::Shard(_)) => {
+                let sh = match std::mem::replace(&mut st, St::Gone) {
+                    St::Shard(sh) => sh,
+                    _ => unreachable!(),
+                };
+                let (take, extra) = (get_usize(op, "take"), get_usize(op, "extra"));
+                guard(|| pass(sh.into_iter(), take, extra, &reg))
+            }
+            // ---- operations on signatures and pairs (no store involved)
+            ("high_bits", _) => {
+                let sig = S::from_words(&words_of(&op["sig"]));
+                let b = op["b"].as_u64().unwrap() as u32;
+                guard(|| sig.high_bits(b, (1u64 << b) - 1))
+                    .map(|x| json!({"res": bits_of_u128(x as u128)}))
+            }
+            ("sv_xor", _) | ("sv_xor_assign", _) => {
+                let a: SigVal<S, V> = pair_of(&op["a"][0], &op["a"][1]);
+                let b: SigVal<S, V> = pair_of(&op["b"][0], &op["b"][1]);
+                guard(|| {
+                    if name == "sv_xor" {
+                        S::xor(a, b)
+                    } else {
+                        let mut c = a;
+                        S::xor_assign(&mut c, b);
+                        c
+                    }
+                })
+                .map(|c| json!({"res": [sig_json(&c.sig.words()), c.val.to_u64()]}))
+            }
+            ("sv_eq", _) => {
+                let a: SigVal<S, V> = pair_of(&op["a"][0], &op["a"][1]);
+                let b: SigVal<S, V> = pair_of(&op["b"][0], &op["b"][1]);
+                guard(|| a == b).map(|e| json!({"res": e}))
+            }
+            _ => Err("na".to_string()),
+        };
+        match r {
+            Ok(v) => ctx.emit(op, "ret", v),
+            Err(msg) if msg == "na" => ctx.emit(op, "na", json!({})),
+            Err(msg) => ctx.emit(op, "panic", json!({"msg": msg.replace('"', "'")})),
+        }
+    }
+}
+
+pub fn run(ep: &Value, ctx: &mut Ctx) {
+    let kind = ep["kind"].as_str().unwrap_or("online").to_string();
+    let st = ep["st"].as_str().unwrap_or("s1").to_string();
+    let vt = ep["vt"].as_str().unwrap_or("u64").to_string();
+    let bb = get_usize(ep, "bb") as u32;
+    let mb = get_usize(ep, "mb") as u32;
+    let exp: Option<usize> = ep
+        .get("exp")
+        .and_then(|v| v.as_array())
+        .and_then(|a| a.first())
+        .and_then(|v| v.as_u64())
+        .map(|n| n as usize);
+    let hdr = json!({"op": "BEGIN", "fam": "sigstore", "src": ep.get("src").cloned().unwrap_or(json!("?")),
+                     "kind": kind, "st": st, "vt": vt, "bb": bb, "mb": mb});
+    macro_rules! go {
+        ($s:ty, $v:ty) => {
+            if kind == "offline" {
+                run_typed::<$s, $v, _>(|| new_offline::<$s, $v>(bb, mb, exp), &hdr, ep, ctx)
+            } else {
+                run_typed::<$s, $v, _>(|| new_online::<$s, $v>(bb, mb, exp), &hdr, ep, ctx)
+            }
+        };
+    }
+    match (st.as_str(), vt.as_str()) {
+        ("s1", "u8") => go!([u64; 1], u8),
+        ("s1", "u64") => go!([u64; 1], u64),
+        ("s1", "empty") => go!([u64; 1], EmptyVal),
+        ("s2", "u8") => go!([u64; 2], u8),
+        ("s2", "u64") => go!([u64; 2], u64),
+        ("s2", "empty") => go!([u64; 2], EmptyVal),
+        _ => {
+            eprintln!("sigstore: unknown types {st}/{vt}");
+            std::process::exit(2);
+        }
+    }
 }
